@@ -23,7 +23,7 @@ MS = {'-': 8, 'm1': 26}
 def gen_power_script(rng, tier):
     K = rng.choice([4, 32])
     validate = rng.choice([0, 1])
-    ignore = 1 if rng.random() < 0.2 else 0
+    ignore = 1 if rng.random() < 0.3 else 0
     L = ['cfg K=%d dup=1 group=2 bloom=none init=eager runtime=%s validate=%d ignore=%d' % (K, rng.choice(['mt', 'ct']), validate, ignore), 'open']
     nclosed = rng.choice([0, 1, 1, 2])
     old_keys = []
@@ -83,7 +83,9 @@ def gen_power_script(rng, tier):
     g = (200).to_bytes(K, 'big').hex()
     L.append('W %s 9 - 5 %d' % (g, seed + 1))
     L.append('R %s' % g)
-    L.append('close')
+    # the second stop is clean or not (a process kill with the page cache intact: no index file is written, the blob
+    # that took the post-recovery write is scanned at the next start)
+    L.append(rng.choice(['close', 'drop', 'drop']))
     L.append('open')
     L.append('R %s' % g)
     for k in allkeys:
